@@ -26,6 +26,12 @@ def format_map_key_value_data_type_conditions(
                 val = i.callable.kwargs["value"]
             elif i.callable.name == "in_":
                 val = " or ".join(str(j) for j in i.callable.kwargs["value"])
+            else:
+                # e.g. `Value.length.less_than(3)`
+                args = [str(j) for j in i.callable.args] + [
+                    f"{k}={v}" for k, v in i.callable.kwargs.items()
+                ]
+                val = f"{i.callable.name}({', '.join(args)})"
             out_i += f"length: {val}"
 
         elif i.callable.name == "equal_to":
